@@ -35,6 +35,7 @@ ASSUMPTIONS["C14"] = [
     "polygons are matched to constructed curves by bounding box (curves are separated by >=1.5% of their region radius by construction)",
     "dxf stores 12 significant digits (%.12g), svg 13 decimals (0.13f) and the arc radius exactly, dict stores float64 exactly",
     "Path.apply_transform documents that a matrix within 1e-8 of the identity is ignored: such a step is left out of the expected product",
+    "Path.merge_vertices (constructor default, process(), every loader) rounds to a grid of up to 1e-4 x AABB diagonal (tol_path.merge=1e-5): regions smaller than 2% of a cell are not generated and a drawing whose closest control points are nearer than 2.9e-4 x scale is only built with process=False and not reloaded",
     "duplicated joints are exact copies (merge_vertices rounds to a grid: nearly-equal points may 'go either way', documented in grouping.float_to_int)",
 ]
 
@@ -253,7 +254,7 @@ def nontrivial(D, stats):
 
 
 def class_labels(D, stats=None, vs=None):
-    out = [f"depth={D.max_depth + 1}", "arcs" if D.has_arcs else "poly_only", f"curves={min(D.n, 8)}"]
+    out = [f"depth={D.max_depth + 1}", "arcs" if D.has_arcs else "poly_only", f"curves={min(D.n, 8)}", "merge_safe" if D.merge_safe else "below_merge_resolution"]
     kinds = {c.kind for c in D.curves}
     out += [f"kind:{k}" for k in sorted(kinds)]
     if any(len(c.children) >= 2 for c in D.curves):
@@ -284,6 +285,7 @@ def b_draw(case, ctx):
         agg = {"multi": 0, "reversed": 0, "dups": 0}
         labels = set()
         for vi, vs in enumerate(variants):
+            vs = safe_variant(D, vs)
             V, ents, stats = gd.build_variant(D, vs)
             for k in agg:
                 agg[k] += stats[k]
@@ -297,6 +299,16 @@ def b_draw(case, ctx):
         for vi in range(1, len(fps)):
             compare_fp(D, fps[0], fps[vi], f"C14.draw|variants|{al}", f"canonical vs variant {vi} ({variants[vi]['mode']})", same_coords=True)
         dfr.flush()
+
+
+def safe_variant(D, vs):
+    """detail finer than the merge grid of Path.merge_vertices (1e-4 * scale) is outside the domain of the constructor's
+    clean-up: such drawings are only built with shared joints and process=False"""
+    if D.merge_safe or vs["mode"] == "shared":
+        return vs
+    vs = dict(vs)
+    vs["mode"] = "shared"
+    return vs
 
 
 def fresh_path(p, V):
@@ -319,7 +331,7 @@ def do_reads(p, mask, order):
 def b_transform(case, ctx):
     with np.errstate(all="ignore"):
         D = gd.Drawing(case["draw"])
-        vs = case["variant"]
+        vs = safe_variant(D, case["variant"])
         V, ents, stats = gd.build_variant(D, vs)
         p = gd.make_path(V, ents, vs["mode"])
         dfr = Deferred(ctx)
@@ -472,12 +484,16 @@ def manual_from_dict(d):
 def b_roundtrip(case, ctx):
     with np.errstate(all="ignore"):
         D = gd.Drawing(case["draw"])
-        vs = case["variant"]
+        vs = safe_variant(D, case["variant"])
         fmt = case["fmt"]
         V, ents, stats = gd.build_variant(D, vs)
         p = gd.make_path(V, ents, vs["mode"])
         dfr = Deferred(ctx)
         al = "arcs" if D.has_arcs else "poly"
+        if not D.merge_safe:
+            # every loader merges vertices on the 1e-4 * scale grid: nothing to demand of a drawing with finer detail
+            ctx.note(nontrivial=False, cls="below_merge_resolution")
+            return
         ctx.note(nontrivial=nontrivial(D, stats), cls=class_labels(D, stats, vs) + [f"fmt:{fmt}:{al}", "export_warm" if case["warm"] else "export_cold"])
         if case["warm"]:
             _ = p.paths, p.discrete, p.area
@@ -523,7 +539,7 @@ def transform_case(draw):
     classes = ("rigid", "similarity", "mirror", "mirror", "translation", "identity")
     steps = []
     for _ in range(nsteps):
-        mask = draw(st.one_of(st.sampled_from([0, 511, 1, 2, 3, 8, 12, 64, 128, 256]), st.integers(0, 511)))
+        mask = draw(st.one_of(st.sampled_from([0, 0, 0, 0, 511, 1, 2, 3, 8, 12, 64, 128, 256]), st.integers(0, 511)))
         steps.append({"M": draw(gm.matrix2d(classes=classes)), "reads": mask})
     return {
         "draw": draw(gd.drawing_spec(arcs=draw(st.booleans()), max_cells=3)),
@@ -549,32 +565,32 @@ def roundtrip_case(draw, fmt):
 
 @subcheck("C14", "draw", shards={"quick": 5, "thorough": 12})
 def s_draw(ctx):
-    ctx.given("C14.draw", draw_case(arcs=True), n={"quick": 1000, "thorough": 24000})
+    ctx.given("C14.draw", draw_case(arcs=True), n={"quick": 800, "thorough": 16000})
 
 
 @subcheck("C14", "draw_poly", shards={"quick": 3, "thorough": 6})
 def s_draw_poly(ctx):
-    ctx.given("C14.draw", draw_case(arcs=False), n={"quick": 600, "thorough": 12000})
+    ctx.given("C14.draw", draw_case(arcs=False), n={"quick": 480, "thorough": 8000})
 
 
 @subcheck("C14", "transform", shards={"quick": 4, "thorough": 12})
 def s_transform(ctx):
-    ctx.given("C14.transform", transform_case(), n={"quick": 800, "thorough": 24000})
+    ctx.given("C14.transform", transform_case(), n={"quick": 800, "thorough": 16000})
 
 
 @subcheck("C14", "roundtrip_dxf", shards={"quick": 2, "thorough": 6})
 def s_rt_dxf(ctx):
-    ctx.given("C14.roundtrip", roundtrip_case("dxf"), n={"quick": 300, "thorough": 9000})
+    ctx.given("C14.roundtrip", roundtrip_case("dxf"), n={"quick": 300, "thorough": 6000})
 
 
 @subcheck("C14", "roundtrip_svg", shards={"quick": 2, "thorough": 6})
 def s_rt_svg(ctx):
-    ctx.given("C14.roundtrip", roundtrip_case("svg"), n={"quick": 300, "thorough": 9000})
+    ctx.given("C14.roundtrip", roundtrip_case("svg"), n={"quick": 300, "thorough": 6000})
 
 
 @subcheck("C14", "roundtrip_dict", shards={"quick": 1, "thorough": 2})
 def s_rt_dict(ctx):
-    ctx.given("C14.roundtrip", roundtrip_case("dict"), n={"quick": 200, "thorough": 3000})
+    ctx.given("C14.roundtrip", roundtrip_case("dict"), n={"quick": 200, "thorough": 2000})
 
 
 REQUIRED_CLASSES["C14"] = [
